@@ -182,6 +182,9 @@ type Obs struct {
 	NoTriage bool
 }
 
+// KnownIDs returns the known-finding ids this case was attributed to.
+func (o *Obs) KnownIDs() []string { return o.known }
+
 // Classes returns the labels recorded so far (for enumerators that tally themselves).
 func (o *Obs) Classes() []string { return o.classes }
 
